@@ -157,7 +157,33 @@ def enc_cell(c):
     return c[0] + enc_vals(c[1])
 
 
-def enc_rep(r):
+def rep_labels(r):
+    """instance identifiers that appear in a start container (row labels of a nested frame, instance level of a
+    multi-index frame, instance column of a long table)"""
+    k = r["k"]
+    if k == "N":
+        return list(r.get("index") or [])
+    if k in ("M", "L"):
+        return [row[0] for row in r["rows"]]
+    return []
+
+
+def lab_map(r):
+    """order-preserving injection of the instance identifiers into the integers (the model only compares and sorts them):
+    identity for ints, rank in sorted order for strings"""
+    labs = rep_labels(r)
+    if any(isinstance(x, str) for x in labs):
+        return {x: i for i, x in enumerate(sorted(set(labs)))}
+    return None
+
+
+def lab_int(x, m):
+    if m is None:
+        return int(x)
+    return m[x]
+
+
+def enc_rep(r, m=None):
     k = r["k"]
     if k == "A":
         v = r["v"]
@@ -166,13 +192,16 @@ def enc_rep(r):
     if k == "T":
         return "T:%s:%s" % ("np" if r["labels"] is None else enc_names(r["labels"]), enc_list(";", [enc_vals(row) for row in r["rows"]]))
     if k == "N":
-        return "N:%s:%s" % (enc_names(r["names"]), enc_list("|", [enc_list(";", [enc_cell(c) for c in col]) for col in r["cols"]]))
+        tok = "N:%s:%s" % (enc_names(r["names"]), enc_list("|", [enc_list(";", [enc_cell(c) for c in col]) for col in r["cols"]]))
+        if r.get("index") is not None:
+            tok += ":" + ",".join(str(lab_int(x, m)) for x in r["index"])
+        return tok
     if k == "M":
         return "M:%s:%s:%s:%s" % (r["inst"], r["time"], enc_names(r["names"]),
-                                  enc_list(";", [",".join([str(i), str(t)] + [show_rat(float(x)) for x in vs]) for i, t, vs in r["rows"]]))
+                                  enc_list(";", [",".join([str(lab_int(i, m)), str(t)] + [show_rat(float(x)) for x in vs]) for i, t, vs in r["rows"]]))
     if k == "L":
         return "L:%s:%s:%s:%s" % (r["inst"], r["time"], r["dim"],
-                                  enc_list(";", [",".join([str(i), str(t), enc_name(nm), show_rat(float(v))]) for i, t, nm, v in r["rows"]]))
+                                  enc_list(";", [",".join([str(lab_int(i, m)), str(t), enc_name(nm), show_rat(float(v))]) for i, t, nm, v in r["rows"]]))
     if k == "O":
         return "O"
     raise ValueError(k)
@@ -202,9 +231,10 @@ def enc_hop(h):
 def to_line(c):
     if c["op"] == "path":
         r = c["start"]
+        m = lab_map(r)
         if c.get("direct"):
-            return "C15 pathd %s %s %s" % (enc_rep(r), enc_hop(c["direct"]), " ".join(enc_hop(h) for h in c["hops"]))
-        return ("C15 path %s %s" % (enc_rep(r), " ".join(enc_hop(h) for h in c["hops"]))).rstrip()
+            return "C15 pathd %s %s %s" % (enc_rep(r, m), enc_hop(c["direct"]), " ".join(enc_hop(h) for h in c["hops"]))
+        return ("C15 path %s %s" % (enc_rep(r, m), " ".join(enc_hop(h) for h in c["hops"]))).rstrip()
     if c["op"] == "pred":
         return "C15 pred " + enc_rep(c["start"])
     if c["op"] == "chk":
@@ -255,6 +285,8 @@ def build(r):
                 data[j] = pd.Series(a, index=range(n))
         df = pd.DataFrame(data, index=range(n))
         df.columns = list(r["names"])
+        if r.get("index") is not None:
+            df.index = list(r["index"])
         return df
     if k == "M":
         idx = pd.MultiIndex.from_tuples([(i, t) for i, t, _ in r["rows"]], names=[r["inst"], r["time"]])
@@ -263,7 +295,7 @@ def build(r):
         return df
     if k == "L":
         rows = r["rows"]
-        return pd.DataFrame({r["inst"]: pd.Series([x[0] for x in rows], dtype="int64"),
+        return pd.DataFrame({r["inst"]: pd.Series([x[0] for x in rows], dtype=(object if any(isinstance(x[0], str) for x in rows) else "int64")),
                              r["time"]: pd.Series([x[1] for x in rows], dtype="int64"),
                              r["dim"]: pd.Series([x[2] for x in rows], dtype=(object if any(isinstance(x[2], str) for x in rows) else "int64")),
                              "value": pd.Series([x[3] for x in rows], dtype=float)})
@@ -279,8 +311,15 @@ def _default_range(idx, n):
         return False
 
 
-def canon(x, kind):
-    """canonical token of a real container, read according to the kind the converter is documented to return"""
+def canon(x, kind, m=None, index=None):
+    """canonical token of a real container, read according to the kind the converter is documented to return.
+    `m`: the case's injection of instance identifiers into the integers; `index`: the row labels of the start frame
+    (a pandas 2-D table inherits them; every other frame must carry the default RangeIndex, anything else is flagged)."""
+    def lab(v):
+        try:
+            return str(lab_int(v, m)) if (m is None or v in m) else "?" + str(v)
+        except Exception:
+            return "?" + str(v)
     if kind == "A" or (kind == "T" and isinstance(x, np.ndarray)):
         if not isinstance(x, np.ndarray):
             return "X:not-array:" + type(x).__name__
@@ -292,7 +331,7 @@ def canon(x, kind):
     if not isinstance(x, pd.DataFrame):
         return "X:not-frame:" + type(x).__name__
     if kind == "T":
-        flag = "" if _default_range(x.index, x.shape[0]) else "!idx"
+        flag = "" if (_default_range(x.index, x.shape[0]) or (index is not None and list(x.index) == list(index))) else "!idx"
         return "T:%s:%s%s" % (enc_names(list(x.columns)), enc_list(";", [enc_vals(row) for row in x.values.tolist()]), flag)
     if kind == "N":
         flag = "" if _default_range(x.index, x.shape[0]) else "!idx"
@@ -314,13 +353,13 @@ def canon(x, kind):
     if kind == "M":
         if x.index.nlevels != 2:
             return "X:nlevels%d" % x.index.nlevels
-        rows = [",".join([str(int(k[0])), str(int(k[1]))] + [show_rat(float(v)) for v in vs]) for k, vs in zip(x.index.tolist(), x.values.tolist())]
+        rows = [",".join([lab(k[0]), str(int(k[1]))] + [show_rat(float(v)) for v in vs]) for k, vs in zip(x.index.tolist(), x.values.tolist())]
         return "M:%s:%s:%s:%s" % (x.index.names[0], x.index.names[1], enc_names(list(x.columns)), enc_list(";", rows))
     if kind == "L":
         cols = list(x.columns)
         if len(cols) != 4 or cols[3] != "value":
             return "X:long-columns:" + ",".join(map(str, cols))
-        rows = [",".join([str(int(a)), str(int(b)), enc_name(c), show_rat(float(d))]) for a, b, c, d in x.values.tolist()]
+        rows = [",".join([lab(a), str(int(b)), enc_name(c), show_rat(float(d))]) for a, b, c, d in x.values.tolist()]
         flag = "" if _default_range(x.index, x.shape[0]) else "!idx"
         return "L:%s:%s:%s:%s%s" % (cols[0], cols[1], cols[2], enc_list(";", rows), flag)
     raise ValueError(kind)
@@ -363,17 +402,19 @@ def run_real(c):
             x = build(c["start"])
         except Exception as e:          # harness cannot even build the container: visible, not silent
             return "X:build:" + type(e).__name__
+        m = lab_map(c["start"])
+        index = c["start"].get("index")
         for h in c["hops"]:
             try:
                 x = apply_hop(h, x)
-                outs.append(canon(x, OUT[h[0]]))
+                outs.append(canon(x, OUT[h[0]], m, index))
             except Exception as e:
                 outs.append(canon_err(e))
                 break
         s = enc_list(" > ", outs)
         if c.get("direct"):
             try:
-                d = canon(apply_hop(c["direct"], build(c["start"])), OUT[c["direct"][0]])
+                d = canon(apply_hop(c["direct"], build(c["start"])), OUT[c["direct"][0]], m, index)
             except Exception as e:
                 d = canon_err(e)
             s += " || " + d
@@ -405,9 +446,12 @@ def _pv(s):
     return [] if s == "-" else [float(Fraction(x)) for x in s.split(",")]
 
 
-def denote(tok):
+def denote(tok, labels=None):
     """token -> (kind, names|None, vals[i][j][t] | rows, meta) read WITHOUT the model: what panel does this container hold?
-    Returns None when the container is not a well-formed container of its kind (labels not 0..n-1 in order, ragged, flags)."""
+    `labels`: the instance identifiers (as integers) the container must carry, in the panel's instance order
+    (None = positions 0..n-1; "any" = whatever it carries, in order of appearance).
+    Returns None when the container is not a well-formed container of its kind (other identifiers, time labels not 0..t-1 in
+    order, ragged, flags)."""
     p = tok.split(":")
     k = p[0]
     try:
@@ -434,9 +478,20 @@ def denote(tok):
             names = dec_names(p[3])
             rows = [] if p[4] == "-" else [r.split(",") for r in p[4].split(";")]
             keys = [(int(r[0]), int(r[1])) for r in rows]
-            n = len({a for a, _ in keys})
+            seen = []
+            for a, _ in keys:
+                if a not in seen:
+                    seen.append(a)
+            n = len(seen)
             t = len({b for _, b in keys})
-            if keys != [(i, q) for i in range(n) for q in range(t)]:
+            want = seen if labels == "any" else list(range(n)) if labels is None else list(labels)
+            if keys != [(i, q) for i in want for q in range(t)]:
+                # same identifiers, rows of the instances in another order: reported by the caller as instance order
+                if labels != "any" and sorted(keys) == sorted((i, q) for i in want for q in range(t)) and \
+                        keys == [(i, q) for i in seen for q in range(t)]:
+                    c = len(names)
+                    byid = {i: [[_pv(",".join(rows[si * t + q][2:]))[j] for q in range(t)] for j in range(c)] for si, i in enumerate(seen)}
+                    return ("M", names, [byid[i] for i in seen], {"inst": p[1], "time": p[2], "order": seen, "want": want})
                 return None
             c = len(names)
             return ("M", names, [[[_pv(",".join(rows[i * t + q][2:]))[j] for q in range(t)] for j in range(c)] for i in range(n)],
@@ -455,10 +510,16 @@ def denote(tok):
                 if key in d:
                     return None
                 d[key] = _pv(r[3])[0]
-            n = len({a for a, _, _ in d})
+            ids = sorted({a for a, _, _ in d})
+            n = len(ids)
             t = len({b for _, b, _ in d})
             if len(d) != n * t * len(names):
                 return None
+            want = ids if labels == "any" else list(range(n)) if labels is None else list(labels)
+            if sorted(want) != ids:
+                return None
+            pos = {lab_: i for i, lab_ in enumerate(want)}      # a long table is keyed by identifier: read it by identifier
+            d = {(pos[a], b, nm): v for (a, b, nm), v in d.items()}
             return ("L", names, d, {"inst": p[1], "time": p[2], "dim": p[3], "n": n, "t": t})
     except Exception:
         return None
@@ -483,6 +544,9 @@ def _walk(c, toks, fails):
     names = list(panel["names"]) if (panel.get("names") is not None and kind in ("N", "M", "L")) else None
     exp = vals                                       # expected values [i][j][t] of the current container
     meta = {}
+    m = lab_map(start)
+    ids = panel.get("ids")
+    labels = [lab_int(x, m) for x in ids] if (ids is not None and kind in ("N", "M", "L")) else None
     if kind == "M":
         meta = {"inst": start["inst"], "time": start["time"]}
     if kind == "L":
@@ -531,12 +595,22 @@ def _walk(c, toks, fails):
             else:
                 fails.append((site + ":valid-rejected", "hop %d %r on a valid %s container raised %s" % (hi, h, kind, tok)))
             return
-        d = denote(tok)
+        carries_ids = op in ("nm", "nl")           # containers that keep the instance identifiers of their input
+        d = denote(tok, labels if carries_ids else None)
         if d is None:
             fails.append((site + ":malformed-output", "hop %d %r returned a container that is not a canonical %s: %s" % (hi, h, OUT[op], tok[:200])))
             return
         okind, onames, ovals, ometa = d
+        if okind == "M" and "order" in ometa:
+            fails.append((site + ":instance-order", "hop %d %r: instances come out in the order %r, the panel's instance order is %r" % (hi, h, ometa["order"], ometa["want"])))
+            return
         # ---- expected values after this hop
+        if op == "ln" and labels is not None:
+            # a long table is keyed by instance identifier, not by position: its instances come back in identifier order
+            order_i = sorted(range(len(exp)), key=lambda i: labels[i])
+            exp = [exp[i] for i in order_i]
+        if not carries_ids:
+            labels = None
         if op == "ln":
             ids = names if names is not None else None
             if ids is None:
@@ -592,6 +666,9 @@ def _walk(c, toks, fails):
             return
         if ovals != exp and named:
             fails.append((op + ":named-series-cells:values", "Series cells carrying a name (%s): %s moved values between columns: got %r expected %r" % (start["snames"], op, ovals[:2], exp[:2])))
+            return
+        if ovals != exp and sorted(map(repr, ovals)) == sorted(map(repr, exp)):
+            fails.append((site + ":instance-order", "hop %d %r: the instances are the original ones in another order: got %r expected %r" % (hi, h, ovals[:4], exp[:4])))
             return
         if ovals != exp:
             fails.append((site + ":values", "hop %d %r: values/order differ from the original panel: got %r expected %r" % (hi, h, ovals[:2], exp[:2])))
@@ -660,13 +737,14 @@ def oracle(c, out):
     dt = parts[1]
     if dt.startswith("E:") or dt.startswith("X:"):
         return fails        # judged by the direct case itself
-    dd = denote(dt)
-    pd_ = denote(toks[-1]) if toks else None
+    dd = denote(dt, "any")
+    pd_ = denote(toks[-1], "any") if toks else None
     if dd is None or pd_ is None:
         return fails
     via_long = any(h[0] == "ln" for h in c["hops"])
     via_2d = any(OUT[h[0]] == "T" for h in c["hops"][:-1]) and len(c["panel"]["vals"][0]) > 1   # a 2-D table has no column boundaries
-    if not via_long and not via_2d:
+    ids_in_result = c["panel"].get("ids") is not None and dd[0] in ("M", "L")
+    if not via_long and not via_2d and not ids_in_result:
         if dd[0] == "L" and pd_[0] == "L" and dd[1] is not None and pd_[1] is not None and sorted(map(str, dd[1])) != sorted(map(str, pd_[1])):
             pass        # names not carried on one of the ways: compared below only when carried
         elif dd[2] != pd_[2]:
@@ -745,20 +823,46 @@ def mk_names(rng, c, kind):
     return nm
 
 
-def start_rep(rng, kind, vals, names, cellkind="S", levels=None, longcols=None, shuffle=False, pandas2d=False):
+def mk_ids(rng, n, mode):
+    """instance identifiers: the panel's instances are NOT in ascending identifier order"""
+    if mode == "perm":
+        ids = list(range(n))
+        rng.shuffle(ids)
+    elif mode == "gap":
+        ids = rng.sample(range(-5, 40), n)
+    elif mode == "str":
+        pool = ["s10", "s2", "s9", "s1", "a", "B", "case 3", "", "z", "s11", "10", "9"]
+        ids = rng.sample(pool, n) if n <= len(pool) else ["s%d" % k for k in rng.sample(range(100), n)]
+    elif mode == "desc":
+        ids = list(range(n - 1, -1, -1))
+    else:
+        return None
+    if n > 1 and ids == sorted(ids):
+        ids.reverse()
+    return ids
+
+
+ID_MODES = [None, None, "perm", "gap", "str", "desc"]
+
+
+def start_rep(rng, kind, vals, names, cellkind="S", levels=None, longcols=None, shuffle=False, pandas2d=False, ids=None):
     n, c, t = len(vals), len(vals[0]), len(vals[0][0])
     nm = names if names is not None else default_names(c)
+    il = ids if ids is not None else list(range(n))
     if kind == "A":
         return {"k": "A", "v": vals}
     if kind == "N":
-        return {"k": "N", "names": nm, "cols": [[[cellkind, vals[i][j]] for i in range(n)] for j in range(c)]}
+        rep = {"k": "N", "names": nm, "cols": [[[cellkind, vals[i][j]] for i in range(n)] for j in range(c)]}
+        if ids is not None:
+            rep["index"] = list(ids)
+        return rep
     if kind == "M":
         lv = levels or LEVELS[0]
         return {"k": "M", "inst": lv[0], "time": lv[1], "names": nm,
-                "rows": [[i, q, [vals[i][j][q] for j in range(c)]] for i in range(n) for q in range(t)]}
+                "rows": [[il[i], q, [vals[i][j][q] for j in range(c)]] for i in range(n) for q in range(t)]}
     if kind == "L":
         lc = longcols or LONGCOLS[0]
-        rows = [[i, q, nm[j], vals[i][j][q]] for j in range(c) for i in range(n) for q in range(t)]
+        rows = [[il[i], q, nm[j], vals[i][j][q]] for j in range(c) for i in range(n) for q in range(t)]
         if shuffle:
             rng.shuffle(rows)
         return {"k": "L", "inst": lc[0], "time": lc[1], "dim": lc[2], "rows": rows}
@@ -875,9 +979,12 @@ def gen_small(tier, rng, cases):
                         continue
                     vals = mk_vals(rng, n, c, t)
                     names = mk_names(rng, c, nk)
+                    ids = mk_ids(rng, n, rng.choice(ID_MODES)) if sk in ("N", "M", "L") else None
                     rep = start_rep(rng, sk, vals, names, cellkind=rng.choice(["S", "R"]), levels=rng.choice(LEVELS),
-                                    longcols=rng.choice(LONGCOLS), shuffle=rng.random() < 0.3, pandas2d=rng.random() < 0.5)
+                                    longcols=rng.choice(LONGCOLS), shuffle=rng.random() < 0.3, pandas2d=rng.random() < 0.5, ids=ids)
                     panel = {"vals": vals, "names": names if names is not None else default_names(c)}
+                    if ids is not None:
+                        panel["ids"] = ids
                     cn = (lambda k, nk=nk: mk_names(rng, k, nk if nk != "default" else "str"))
                     cases.append(mk_path_case(rng, rep, panel, ops, c, cn))
 
@@ -894,10 +1001,13 @@ def gen_random(tier, rng, cases):
         sk = rng.choice(["A", "N", "N", "M", "L", "T"])
         vals = mk_vals(rng, n, c, t, mode=rng.choice(["distinct", "dyadic"]))
         names = mk_names(rng, c, nk)
+        ids = mk_ids(rng, n, rng.choice(ID_MODES)) if sk in ("N", "M", "L") else None
         rep = start_rep(rng, sk, vals, names, cellkind=rng.choice(["S", "R"]), levels=rng.choice(LEVELS),
-                        longcols=rng.choice(LONGCOLS), shuffle=rng.random() < 0.5, pandas2d=rng.random() < 0.5)
+                        longcols=rng.choice(LONGCOLS), shuffle=rng.random() < 0.5, pandas2d=rng.random() < 0.5, ids=ids)
         ops = rng.choice(op_paths(sk, 4))
         panel = {"vals": vals, "names": names if names is not None else default_names(c)}
+        if ids is not None:
+            panel["ids"] = ids
         cn = (lambda k, nk=nk: mk_names(rng, k, nk if nk != "default" else "str"))
         cases.append(mk_path_case(rng, rep, panel, ops, c, cn))
 
@@ -1067,19 +1177,25 @@ def shrink(c):
     n, ncol, t = len(vals), len(vals[0]), len(vals[0][0])
     names = p["names"]
 
-    def rebuild(v, nm):
+    ids0 = p.get("ids")
+
+    def rebuild(v, nm, ids=ids0):
         import random
         r = random.Random(0)
         k = start["k"]
         rep = start_rep(r, k, v, nm, cellkind=(start["cols"][0][0][0] if k == "N" else "S"),
                         levels=(start["inst"], start["time"]) if k == "M" else None,
                         longcols=(start["inst"], start["time"], start["dim"]) if k == "L" else None,
-                        pandas2d=(k == "T" and start["labels"] is not None))
+                        pandas2d=(k == "T" and start["labels"] is not None), ids=ids if k in ("N", "M", "L") else None)
         if k == "N" and start.get("snames"):
             rep["snames"] = start["snames"]
-        return dict(c, start=rep, panel={"vals": v, "names": nm})
+        pn = {"vals": v, "names": nm}
+        if ids is not None and k in ("N", "M", "L"):
+            pn["ids"] = ids
+        return dict(c, start=rep, panel=pn)
     if n > 1:
-        yield rebuild(vals[:-1], names)
+        for i in range(n):
+            yield rebuild(vals[:i] + vals[i + 1:], names, None if ids0 is None else ids0[:i] + ids0[i + 1:])
     if t > 1:
         yield rebuild([[col[:-1] for col in inst] for inst in vals], names)
     if ncol > 1 and not any(((h[1] if h[0] in ("3n", "2n") else h[3] if h[0] == "3m" else h[4] if h[0] == "ln" else None) is not None) for h in hops):
